@@ -50,16 +50,25 @@ Definition opt_case (p reps : Z) (nl : netlist) (dflt : Z) (regmap : list (Z * Z
   : (list (list Z) * list (list Z)) * list (list Z) :=
   let prev := iter_pass (Nat.pred (Z.to_nat reps)) (opt_pass p) nl in
   let nl' := opt_pass p prev in
+  let st0 := init_state nl dflt regmap memmap in
   let '(vs, st) := run nl' dflt (init_state nl' dflt regmap memmap) (map ins_of inss) in
   (* row 0: result is wfb; the input of this application satisfies the API-built
-     assumption; the decidable premise of the pass's preservation theorem
-     (wire_removal_ok / slice_removal_ok / unlistened_ok) holds of it *)
+     assumption; the decidable premise of the pass's preservation theorem holds of it;
+     the initial state satisfies the theorem's steady-state hypothesis *)
   (dump_nl nl',
    [b2z (wfb nl'); b2z (api_built prev);
     b2z (match p with
-         | 3 => wire_removal_ok prev
-         | 4 => slice_removal_ok prev
-         | 5 => unlistened_ok prev
+         | 0 => optimize_ok prev
+         | 1 => constant_propagation_ok prev
+         | 2 => cse_ok prev
+         | 3 => wire_stage_ok prev
+         | 4 => slice_stage_ok prev
+         | 5 => unlistened_stage_ok prev
+         | _ => true
+         end);
+    b2z (match p with
+         | 0 => optimize_steadyb prev (sregs st0)
+         | 1 => constant_propagation_steadyb prev (sregs st0)
          | _ => true
          end)]
    :: map (fun v => map v outs) vs).
